@@ -157,7 +157,10 @@ Definition papply (i : N) (p : prim) (s : st) : st :=
   | PKvDel k =>
     iset k_kvs i (iset k_tombs i (s <| dt; tombs ::= <[k := i]> |>) <| dt; kvs ::= delete k |>)
   | PKvDelTree p =>
-    let s1 := s <| dt; kvs ::= filter (fun kv => has_prefix p kv.1 = false) |> in
+    (* the keys under the prefix go, and so do the tombstones the delete subsumes; one tombstone
+       for the prefix itself (none for the whole tree) *)
+    let s1 := s <| dt; kvs ::= filter (fun kv => has_prefix p kv.1 = false) |>
+                <| dt; tombs ::= filter (fun kt => has_prefix p kt.1 = false) |> in
     let s2 := if bool_decide (p = "") then s1 else iset k_tombs i (s1 <| dt; tombs ::= <[p := i]> |>) in
     iset k_kvs i s2
   | PKvRelease sid =>
